@@ -24,7 +24,12 @@ def leKey : Elem → Elem → Bool := fun a b => !ltKey b a
 
 def parseCase (c : String) : Option (List (List Elem)) :=
   match splitAt "|" (words c) with
-  | ["merge"] :: ins => ins.mapM (fun ts => match ts with | [t] => parseElems t | _ => none)
+  -- `mergeD` / `mergeS`: the same merge under comparators that answer differences / ±7 (harness/run/c08.go); the model's
+  -- comparator is the order they all induce
+  | [h] :: ins =>
+    if h == "merge" || h == "mergeD" || h == "mergeS" then
+      ins.mapM (fun ts => match ts with | [t] => parseElems t | _ => none)
+    else none
   | _ => none
 
 /-- returns (model output, spec verdict on the observation, reason) -/
